@@ -67,7 +67,7 @@ pub fn parse_op(s: &str) -> Op {
 }
 
 // ------------------------------------------------------------------------------------------------ generator
-fn rstr(rng: &mut Rng) -> Vec<u8> {
+pub fn rstr(rng: &mut Rng) -> Vec<u8> {
     match rng.below(8) { 0 => vec![], 1 => "cn=é,dc=€".as_bytes().to_vec(), 2 => vec![b'x'; *rng.pick(&[127usize, 128, 129, 300])], _ => { let n = 1 + rng.below(10) as usize; (0..n).map(|_| b"abcdefgh=,. 0123"[rng.below(16) as usize]).collect() } }
 }
 fn rval(rng: &mut Rng) -> Vec<u8> { if rng.chance(1, 4) { rng.bytes(rng.clone().below(6) as usize) } else { rstr(rng) } }
